@@ -11,7 +11,7 @@ from ..pkt import SYN, ACK, PSH
 from ..protos import http, dns, stun, rpc, smb
 
 PROP = "C19"
-PORTS = [0, 1, 22, 53, 80, 111, 445, 3478, 65535]
+PORTS = [0, 1, 22, 53, 80, 111, 445, 3478, 65535, 443, 8443, 8080, 25, 23, 1023, 1024, 3389]
 RULE = ("corpus = valid requests of every application protocol/form, byte-mutated variants, DNS-query/STUN polyglots and near-requests the responders refuse (other DNS types and classes, "
         "reply-typed messages, RPC programs / versions out of range, single-fault HTTP / SSH requests, other SMB commands); two UDP "
         "placements per payload use the source port that makes the request's UDP checksum the 0xFFFF encoding, a quarter of the placements carries "
